@@ -1333,7 +1333,7 @@ mut("c03-unknown-type-header-not-consumed", "C03", "src/parser/stream.rs",
                 return Ok(Continue(()));""",
     """                self.state = State::Skip;
                 return Ok(Continue(()));""",
-    "R3.12/parse_head/progress-contract", "the header of an unknown-type record is parsed again and again: parse() never returns")
+    "R3.12/", "the header of an unknown-type record is parsed again and again: parse() never returns")
 
 mut("c03-skip-continues-with-itself", "C03", "src/parser/request.rs",
     """            Continue((&mut data[total..], self.next.into_state()))
